@@ -103,8 +103,12 @@ def run_one(name, seed, tmp, tier):
         env.setdefault("SYMX_PROVE_RETRY_MS", "10000")
         env.setdefault("SYMX_FEAS_MS", "250")
         env.setdefault("SYMX_FEAS_RETRY_MS", "1200")
+        # boundary restarts (ratio-like variables started at 0 and at their maximum): extra
+        # exploration with a time budget of its own
+        env.setdefault("SYMX_RESTART_SECS", "12")
     else:
         env.setdefault("SYMX_PROVE_RETRY_MS", "60000")
+        env.setdefault("SYMX_RESTART_SECS", "300")
     try:
         p = subprocess.run([HX_SYM, "run", name, str(seed), out], env=env, stdout=subprocess.PIPE, stderr=subprocess.STDOUT, text=True, timeout=3600)
     except subprocess.TimeoutExpired:
@@ -406,6 +410,7 @@ def main():
             "functions_encoded": functions,
             "scenarios": {n: {"desc": j["desc"], "paths": j["paths"], "decisions": j["decisions"], "interval_decided": j["interval_decided"], "queries": j["queries"], "obligations": j["obligations"], "vars": j["vars"], "path_cap_hit": j["path_cap_hit"], "time_cap_hit": j["time_cap_hit"], "skipped_unknown_feasibility": j["unknown_feasibility"], "infeasible_paths": j["infeasible"]} for n, j in results.items()},
             "paths_skipped_unknown_feasibility": tot("unknown_feasibility"),
+            "boundary_restart_items_dropped_by_budget": sum(j.get("restarts_skipped", 0) for j in results.values()),
             "scenario_failures": [n for n, _ in failures],
             "engine_aborts": aborted[:20],
             "shim_vs_real_mismatches": mismatches[:20],
